@@ -37,6 +37,27 @@
 #include "Simulation/CalcSimuTurningBands.hpp"
 #include "Simulation/SimuFFTParam.hpp"
 #include "Space/SpaceRN.hpp"
+#include "Anamorphosis/AnamHermite.hpp"
+#include "Anamorphosis/CalcAnamTransform.hpp"
+#include "Stats/Selectivity.hpp"
+#include "Enum/ESelectivity.hpp"
+#include "Enum/EMorpho.hpp"
+#include "Enum/EPostUpscale.hpp"
+#include "Enum/EPostStat.hpp"
+#include "Estimation/CalcKrigingFactors.hpp"
+#include "Estimation/CalcGlobal.hpp"
+#include "Calculators/CalcSimuPost.hpp"
+#include "Simulation/CalcSimuPartition.hpp"
+#include "Simulation/SimuPartitionParam.hpp"
+#include "Simulation/CalcSimuSubstitution.hpp"
+#include "Simulation/SimuSubstitutionParam.hpp"
+#include "Simulation/SimuSpherical.hpp"
+#include "Simulation/SimuSphericalParam.hpp"
+#include "Simulation/CalcSimuRefine.hpp"
+#include "Simulation/SimuRefineParam.hpp"
+#include "Simulation/CalcSimuEden.hpp"
+#include "Matrix/MatrixSquareSymmetric.hpp"
+#include <set>
 
 using namespace vf;
 
@@ -67,6 +88,9 @@ struct World
   Db* dbout = nullptr;   // may be == dbin
   Model* model = nullptr;
   ANeigh* neigh = nullptr;
+  AnamHermite* anam = nullptr;
+  Selectivity* sel = nullptr;
+  Db* produced = nullptr;  // data base returned by the call itself (simulation_refine)
 };
 static const int NOSTATUS = 99;  // entry point without error code (krigtest)
 struct Scenario
@@ -142,17 +166,233 @@ static void build_scenarios()
       [](World& w) { return krimage(dynamic_cast<DbGrid*>(w.dbout), w.model, w.neigh); }, 1, "Filtering.z1");
 }
 
+
+// ------------------------------------------------------------------------------------------------------------
+// round 2: the remaining ACalculator-based entry points
+static Db* anamdata()
+{
+  std::vector<double> x, y, z;
+  for (int i = 0; i < 20; i++)
+  {
+    int k = (7 * i) % 20;
+    x.push_back(0.25 + 0.5 * (i % 5) + 0.125 * ((i / 5) % 2));
+    y.push_back(0.25 + 0.5 * (i / 5));
+    z.push_back(1.5 * std::exp(0.5 * (-1.805 + 0.19 * k)));
+  }
+  return make_db_xz({x, y}, {z});
+}
+static AnamHermite* fitted_anam()
+{
+  Db* d = anamdata();
+  AnamHermite* a = AnamHermite::create(8);
+  a->fitFromLocator(d);
+  delete d;
+  return a;
+}
+static Selectivity* selec() { return Selectivity::createByCodes({ESelectivity::Q, ESelectivity::T}, {0., 1.5}, true, true); }
+static DbGrid* grid_with(const std::vector<std::string>& names, const std::vector<std::vector<double>>& cols, const std::vector<std::string>& locs)
+{
+  VectorDouble tab;
+  for (auto& c : cols) for (double v : c) tab.push_back(v);
+  VectorString nm(names.begin(), names.end()), lc(locs.begin(), locs.end());
+  return DbGrid::create({3, 3}, {1., 1.}, {0., 0.}, VectorDouble(), ELoadBy::COLUMN, tab, nm, lc);
+}
+static Model* model_drift() { Model* m = model2d(); m->setDriftIRF(0); return m; }
+
+static void build_scenarios2()
+{
+  auto add = [](const std::string& c, std::function<void(World&)> b, std::function<int(World&)> f) { SC.push_back({c, b, f, -1, ""}); };
+  std::vector<double> g9 = {-1., -0.5, 0., 0.5, 1., 0.25, -0.25, 0.75, -0.75}, s9 = {0.5, 0.6, 0.7, 0.4, 0.5, 0.6, 0.7, 0.4, 0.5};
+  std::vector<double> z9 = {1., 1.5, 2., 1.25, 1.75, 2.25, 0.75, 1.5, 2.5}, v9 = {0.2, 0.3, 0.25, 0.2, 0.3, 0.25, 0.2, 0.3, 0.25};
+
+  // ---- CalcAnamTransform family (one data base: the variables are added to the data base given)
+  add("rawToGaussianByLocator", [](World& w) { w.dbout = anamdata(); w.anam = fitted_anam(); }, [](World& w) { return w.anam->rawToGaussianByLocator(w.dbout); });
+  add("rawToGaussian", [](World& w) { w.dbout = anamdata(); w.anam = fitted_anam(); }, [](World& w) { return w.anam->rawToGaussian(w.dbout, "z1"); });
+  add("normalScore", [](World& w) { w.dbout = anamdata(); w.anam = fitted_anam(); }, [](World& w) { return w.anam->normalScore(w.dbout, "z1"); });
+  add("gaussianToRawByLocator", [](World& w) {
+        w.dbout = anamdata(); w.anam = fitted_anam();
+        w.anam->rawToGaussianByLocator(w.dbout);           // Y.z1 now holds the Z role
+        w.dbout->setName("Y.z1", "gauss"); },
+      [](World& w) { return w.anam->gaussianToRawByLocator(w.dbout); });
+  add("rawToFactor", [](World& w) { w.dbout = anamdata(); w.anam = fitted_anam(); }, [](World& w) { return w.anam->rawToFactor(w.dbout, 2); });
+  add("ConditionalExpectation", [g9, s9](World& w) { w.dbout = grid_with({"G.estim", "G.stdev"}, {g9, s9}, {"z1", ""}); w.anam = fitted_anam(); w.sel = selec(); },
+      [](World& w) { return ConditionalExpectation(w.dbout, w.anam, w.sel, "G.estim", "G.stdev"); });
+  add("DisjunctiveKriging", [g9, s9](World& w) { w.dbout = grid_with({"F.1.estim", "F.2.estim", "F.1.stdev", "F.2.stdev"}, {g9, g9, s9, s9}, {"z1", "z2", "", ""}); w.anam = fitted_anam(); w.sel = selec(); },
+      [](World& w) { return DisjunctiveKriging(w.dbout, w.anam, w.sel, {"F.1.estim", "F.2.estim"}, {"F.1.stdev", "F.2.stdev"}); });
+  add("UniformConditioning", [z9, v9](World& w) { w.dbout = grid_with({"Z.estim", "Z.varz"}, {z9, v9}, {"z1", ""}); w.anam = fitted_anam(); w.sel = selec(); },
+      [](World& w) { return UniformConditioning(w.dbout, w.anam, w.sel, "Z.estim", "Z.varz"); });
+  // ---- CalcKrigingFactors
+  add("krigingFactors", [](World& w) {
+        w.dbin = anamdata(); w.anam = fitted_anam();
+        w.anam->rawToFactor(w.dbin, 2);
+        w.dbout = DbGrid::create({3, 3}, {0.75, 0.5}, {0.5, 0.5});
+        w.model = model2d(); w.model->setAnam(w.anam);
+        w.neigh = NeighUnique::create(); },
+      [](World& w) { return krigingFactors(w.dbin, w.dbout, w.model, w.neigh); });
+  // ---- CalcKriging: the remaining entry points
+  add("kribayes", [](World& w) { w.dbin = data2d(); w.dbout = grid2d(); w.model = model_drift(); w.neigh = NeighUnique::create(); },
+      [](World& w) { MatrixSquareSymmetric c(1); c.setValue(0, 0, 1.); return kribayes(w.dbin, w.dbout, w.model, w.neigh, {1.}, c); });
+  add("krigprof", [](World& w) { w.dbin = data2d(); w.dbin->addColumns({1., 1., 1., 2., 2., 2.}, "code", ELoc::C); w.dbin->addColumns({0.1, 0.1, 0.1, 0.1, 0.1, 0.1}, "verr", ELoc::V); w.dbout = grid2d(); w.model = model2d(); w.neigh = NeighUnique::create(); },
+      [](World& w) { return krigprof(w.dbin, w.dbout, w.model, w.neigh); });
+  add("kriggam", [](World& w) { w.dbin = anamdata(); w.dbout = DbGrid::create({3, 3}, {0.75, 0.5}, {0.5, 0.5}); w.model = model2d(); w.neigh = NeighUnique::create(); w.anam = fitted_anam(); },
+      [](World& w) { return kriggam(w.dbin, w.dbout, w.model, w.neigh, w.anam); });
+  add("simbayes", [](World& w) { w.dbin = data2d(); w.dbout = grid2d(); w.model = model_drift(); w.neigh = NeighUnique::create(); },
+      [](World& w) { MatrixSquareSymmetric c(1); c.setValue(0, 0, 1.); return simbayes(w.dbin, w.dbout, w.model, w.neigh, 2, 4321, {1.}, c, 20); });
+  // ---- CalcGlobal (results returned, nothing documented in the data bases)
+  add("global_kriging", [](World& w) { w.dbin = data2d(); w.dbout = grid2d(); w.model = model2d(); },
+      [](World& w) { Global_Result r = global_kriging(w.dbin, w.dbout, w.model, 0, false); return NOSTATUS; });
+  add("global_arithmetic", [](World& w) { w.dbin = data2d(); w.dbout = grid2d(); w.model = model2d(); },
+      [](World& w) { Global_Result r = global_arithmetic(w.dbin, dynamic_cast<DbGrid*>(w.dbout), w.model, 0, false); return NOSTATUS; });
+  // ---- CalcStatistics
+  add("dbRegression", [](World& w) { w.dbout = data2d(); },
+      [](World& w) { return dbRegression(w.dbout, "z1", {"x1", "x2"}); });
+  add("dbStatisticsOnGrid-num-radius", [](World& w) { w.dbin = data2d(); w.dbout = grid2d(); },
+      [](World& w) { return dbStatisticsOnGrid(w.dbin, dynamic_cast<DbGrid*>(w.dbout), EStatOption::NUM, 1); });
+  // ---- CalcSimuPost
+  add("simuPost", [](World& w) {
+        VectorDouble t; for (int k = 0; k < 32; k++) t.push_back(0.5 * ((5 * k) % 16));
+        w.dbin = DbGrid::create({4, 4}, {1., 1.}, {0., 0.}, VectorDouble(), ELoadBy::COLUMN, t, {"s1", "s2"}, {"", ""});
+        w.dbout = DbGrid::create({2, 2}, {2., 2.}, {0.5, 0.5}); },
+      [](World& w) { return simuPost(w.dbin, dynamic_cast<DbGrid*>(w.dbout), {"s1", "s2"}); });
+  // ---- CalcGridToGrid
+  add("dbg2gExpand", [](World& w) { w.dbin = grid2d(true); w.dbout = DbGrid::create({3, 3, 2}, {1., 1., 1.}, {0., 0., 0.}); },
+      [](World& w) { return dbg2gExpand(dynamic_cast<DbGrid*>(w.dbin), dynamic_cast<DbGrid*>(w.dbout)); });
+  add("dbg2gShrink", [](World& w) {
+        VectorDouble t; for (int k = 0; k < 18; k++) t.push_back(1. + 0.5 * k);
+        w.dbin = DbGrid::create({3, 3, 2}, {1., 1., 1.}, {0., 0., 0.}, VectorDouble(), ELoadBy::COLUMN, t, {"z1"}, {"z1"});
+        w.dbout = grid2d(); },
+      [](World& w) { return dbg2gShrink(dynamic_cast<DbGrid*>(w.dbin), dynamic_cast<DbGrid*>(w.dbout)); });
+  add("dbg2gInterpolate", [](World& w) {
+        std::vector<double> top(9, 1.5), bot(9, -0.5), zz = {1., 2., 3., 4., 5., 6., 7., 8., 9.}, z2 = {2., 3., 4., 5., 6., 7., 8., 9., 10.};
+        VectorDouble t; for (auto* c : {&zz, &z2, &top, &bot}) for (double v : *c) t.push_back(v);
+        w.dbin = DbGrid::create({3, 3}, {1., 1.}, {0., 0.}, VectorDouble(), ELoadBy::COLUMN, t, {"z1", "z2", "top", "bot"}, {"z1", "z2", "", ""});
+        w.dbout = DbGrid::create({3, 3, 2}, {1., 1., 1.}, {0., 0., 0.}); },
+      [](World& w) { return dbg2gInterpolate(dynamic_cast<DbGrid*>(w.dbin), dynamic_cast<DbGrid*>(w.dbout), {"top"}, {"bot"}); });
+  // ---- CalcMigrate
+  add("migrateMulti", [](World& w) { w.dbin = data2d(2); w.dbout = grid2d(); }, [](World& w) { return migrateMulti(w.dbin, w.dbout, {"z1", "z2"}); });
+  // ---- CalcImage
+  auto img = [](World& w) { w.dbout = DbGrid::create({5, 5}, {1., 1.}, {0., 0.}, VectorDouble(), ELoadBy::COLUMN,
+                                                    {1, 2, 3, 4, 5, 2, 3, 4, 5, 6, 3, 4, 5, 6, 7, 4, 5, 6, 7, 8, 5, 6, 7, 8, 9}, {"z1"}, {"z1"}); };
+  add("dbMorpho", img, [](World& w) { return dbMorpho(dynamic_cast<DbGrid*>(w.dbout), EMorpho::THRESH, 2.5, 6.5); });
+  add("dbSmoother", [img](World& w) { img(w); w.neigh = NeighImage::create({1, 1}); }, [](World& w) { return dbSmoother(dynamic_cast<DbGrid*>(w.dbout), w.neigh, 1, 1.); });
+  // ---- grid simulations
+  auto g8 = [](World& w) { w.dbout = DbGrid::create({8, 8}, {1., 1.}, {0., 0.}); w.model = model2d(); };
+  add("tessellation_voronoi", g8, [](World& w) { SimuPartitionParam p(20, 0.2); return tessellation_voronoi(dynamic_cast<DbGrid*>(w.dbout), w.model, p, 4321); });
+  add("tessellation_poisson", g8, [](World& w) { SimuPartitionParam p(20, 0.2); return tessellation_poisson(dynamic_cast<DbGrid*>(w.dbout), w.model, p, 4321); });
+  add("substitution", [](World& w) { w.dbout = DbGrid::create({8, 8}, {1., 1.}, {0., 0.}); },
+      [](World& w) { SimuSubstitutionParam p(2, 1.); return substitution(dynamic_cast<DbGrid*>(w.dbout), p, 4321); });
+  add("simulation_refine", [](World& w) { w.dbout = grid2d(true); w.model = model2d(); },
+      [](World& w) { SimuRefineParam p(1, true); w.produced = simulation_refine(dynamic_cast<DbGrid*>(w.dbout), w.model, p, 4321); return w.produced != nullptr ? 0 : 1; });
+  add("fluid_propagation", [](World& w) {
+        VectorDouble t;
+        for (int k = 0; k < 25; k++) t.push_back(1.);                       // facies
+        for (int k = 0; k < 25; k++) t.push_back(k == 12 ? 1. : 0.);        // fluid seed in the centre
+        for (int k = 0; k < 25; k++) t.push_back(1.);                       // perm
+        for (int k = 0; k < 25; k++) t.push_back(1.);                       // poro
+        w.dbout = DbGrid::create({5, 5}, {1., 1.}, {0., 0.}, VectorDouble(), ELoadBy::COLUMN, t, {"facies", "fluid", "perm", "poro"}, {"", "", "", ""}); },
+      [](World& w) { return fluid_propagation(dynamic_cast<DbGrid*>(w.dbout), "facies", "fluid", "perm", "poro", 1, 1, 1, VectorInt(), false, TEST, TEST, 4321); });
+}
+
+
+// ------------------------------------------------------------------------------------------------------------
+// documented output variables (NamingConvention prefix + input variable name + qualifier [+ rank]) of every scenario
+static const std::map<std::string, std::vector<std::string>>& expected_names()
+{
+  static std::map<std::string, std::vector<std::string>> E = {
+    {"kriging", {"Kriging.z1.estim", "Kriging.z1.stdev"}},
+    {"kriging-moving-points", {"Kriging.z1.estim", "Kriging.z1.stdev", "Kriging.z1.varz"}},
+    {"kriging-extdrift", {"Kriging.z1.estim", "Kriging.z1.stdev"}},
+    {"krigtest", {}},
+    {"xvalid", {"Xvalid.z1.esterr", "Xvalid.z1.stderr"}},
+    {"test_neigh", {"Neigh.z1.Number", "Neigh.z1.MaxDist", "Neigh.z1.MinDist", "Neigh.z1.NbNESect", "Neigh.z1.NbCESect"}},
+    {"krigcell", {"KrigCell.z1.estim", "KrigCell.z1.stdev"}},
+    {"simtub-nc", {"Simu.1", "Simu.2"}},
+    {"simtub-cond", {"Simu.z1.1", "Simu.z1.2"}},
+    {"migrate", {"Migrate"}},  // default naming convention of migrate() has flag_varname = false
+    {"migrateByLocator", {"Migrate.z1", "Migrate.z2"}},
+    {"migrateMulti", {"Migrate.z1", "Migrate.z2"}},
+    {"dbStatisticsOnGrid", {"Stats.z1"}},
+    {"dbStatisticsOnGrid-num-radius", {"Stats.z1"}},
+    {"inverseDistance", {"InvDist.z1.estim"}},
+    {"nearestNeighbor", {"Nearest.z1.estim"}},
+    {"movingAverage", {"MovAve.z1.estim"}},
+    {"movingMedian", {"MovMed.z1.estim"}},
+    {"leastSquares", {"LstSqr.z1.estim"}},
+    {"dbg2gCopy", {"Copy.z1"}},
+    {"dbg2gExpand", {"Expand.z1"}},
+    {"dbg2gShrink", {"Shrink.z1"}},
+    {"dbg2gInterpolate", {"Interpolation"}},  // default naming convention has flag_varname = false
+    {"simfft", {"FFT.1", "FFT.2"}},
+    {"krimage", {"Filtering.z1"}},
+    {"dbMorpho", {"Morpho.z1.THRESH"}},
+    {"dbSmoother", {"Smooth.z1"}},
+    {"rawToGaussianByLocator", {"Y.z1"}},
+    {"rawToGaussian", {"Y.z1"}},
+    {"normalScore", {"Gaussian.z1"}},
+    {"gaussianToRawByLocator", {"Z.gauss"}},
+    {"rawToFactor", {"Factor.z1.1", "Factor.z1.2"}},
+    {"ConditionalExpectation", {"CE.G.estim.T-estim-0", "CE.G.estim.T-estim-1.5", "CE.G.estim.T-stdev-0", "CE.G.estim.T-stdev-1.5", "CE.G.estim.Q-estim-0", "CE.G.estim.Q-estim-1.5", "CE.G.estim.Q-stdev-0", "CE.G.estim.Q-stdev-1.5"}},
+    {"UniformConditioning", {"UC.Z.estim.T-estim-0", "UC.Z.estim.T-estim-1.5", "UC.Z.estim.T-stdev-0", "UC.Z.estim.T-stdev-1.5", "UC.Z.estim.Q-estim-0", "UC.Z.estim.Q-estim-1.5", "UC.Z.estim.Q-stdev-0", "UC.Z.estim.Q-stdev-1.5"}},
+    {"DisjunctiveKriging", {"DK.T-estim-0", "DK.T-estim-1.5", "DK.T-stdev-0", "DK.T-stdev-1.5", "DK.Q-estim-0", "DK.Q-estim-1.5", "DK.Q-stdev-0", "DK.Q-stdev-1.5"}},
+    {"krigingFactors", {"KD.Factor.z1.1.estim", "KD.Factor.z1.2.estim", "KD.Factor.z1.1.stdev", "KD.Factor.z1.2.stdev"}},
+    {"kribayes", {"Bayes.z1.estim", "Bayes.z1.stdev"}},
+    {"krigprof", {"KrigProf.z1.estim", "KrigProf.z1.stdev"}},
+    {"kriggam", {"KrigGam.z1.estim", "KrigGam.z1.stdev"}},
+    {"simbayes", {"SimBayes.z1.1", "SimBayes.z1.2"}},
+    {"global_kriging", {}},
+    {"global_arithmetic", {}},
+    {"dbRegression", {"Regr.z1"}},
+    {"simuPost", {"Post.Var1.Mean", "Post.Var2.Mean"}},
+    {"tessellation_voronoi", {"Voronoi"}},
+    {"tessellation_poisson", {"Poisson"}},
+    {"substitution", {"SimSub"}},
+    {"simulation_refine", {}},  // the result is a new data base; the input grid must stay as it is
+    {"fluid_propagation", {"Eden.Fluid", "Eden.Date"}},
+  };
+  return E;
+}
+// calculators which accept the same data base as input and output
+static bool same_ok(const std::string& c)
+{
+  for (const char* k : {"kriging-moving-points", "test_neigh", "nearestNeighbor", "dbg2gCopy"}) if (c == k) return true;
+  return false;
+}
+// name produced when 'e' is already used: e followed by one or more ".<number>" (the de-duplication suffix is an implementation choice)
+static bool is_dedup_of(const std::string& got, const std::string& e)
+{
+  if (got.size() <= e.size() || got.compare(0, e.size(), e) != 0) return false;
+  size_t i = e.size();
+  while (i < got.size())
+  {
+    if (got[i] != '.') return false;
+    i++;
+    size_t j = i;
+    while (j < got.size() && isdigit((unsigned char)got[j])) j++;
+    if (j == i) return false;
+    i = j;
+  }
+  return true;
+}
+
 // ------------------------------------------------------------------------------------------------------------
 // prior contents of the data bases
-static const char* PRIOR_NAME[] = {"plain", "output-name-already-used", "selections", "roles-used-temporarily-already-present", "extra-columns-in-the-middle"};
-static const int NPRIOR = 5;
-static void apply_prior(int p, World& w, const Scenario& s)
+static const char* PRIOR_NAME[] = {"plain", "every-output-name-already-used", "selections", "roles-used-temporarily-already-present", "extra-columns-in-the-middle", "dbin-is-dbout"};
+static const int NPRIOR = 6;
+static bool apply_prior(int p, World& w, const Scenario& s)
 {
-  if (p == 0 || w.dbout == nullptr) return;
+  if (p == 5)
+  {
+    if (!w.dbin || !w.dbout || w.dbin == w.dbout || !same_ok(s.calc)) return false;
+    delete w.dbout; w.dbout = w.dbin;
+    return true;
+  }
+  if (p == 0 || w.dbout == nullptr) return true;
   int no = w.dbout->getSampleNumber();
   if (p == 1)
   {
-    w.dbout->addColumnsByConstant(1, 42., s.clashName, ELoc::UNKNOWN);
+    auto it = expected_names().find(s.calc);
+    if (it == expected_names().end() || it->second.empty()) return false;
+    for (auto& n : it->second) w.dbout->addColumnsByConstant(1, 42., n, ELoc::UNKNOWN);
   }
   else if (p == 2)
   {
@@ -173,6 +413,7 @@ static void apply_prior(int p, World& w, const Scenario& s)
     w.dbout->deleteColumn("extra-1");
     if (w.dbin != nullptr && w.dbin != w.dbout) { w.dbin->addColumnsByConstant(2, 9., "extra", ELoc::UNKNOWN); w.dbin->deleteColumn("extra-1"); }
   }
+  return true;
 }
 
 // sabotages (natural failures); return false when not applicable to the scenario
@@ -192,7 +433,7 @@ static bool apply_sabotage(int q, World& w)
   switch (q)
   {
     case 0: if (!w.model) return false; delete w.model; w.model = model2d(3); return true;
-    case 1: if (!w.dbin) return false; w.dbin->clearLocators(ELoc::Z); return true;
+    case 1: { Db* d = w.dbin ? w.dbin : w.dbout; if (!d || d->getLocatorNumber(ELoc::Z) == 0) return false; d->clearLocators(ELoc::Z); return true; }
     case 2: if (!w.dbin || !w.model) return false; w.dbin->addColumnsByConstant(1, 3., "z2", ELoc::Z, 1); return true;
     case 3: if (!w.model) return false; delete w.model; w.model = Model::create(); return true;
     case 4: if (!w.neigh || !w.dbin) return false; delete w.neigh; w.neigh = NeighMoving::create(false, 50, 10., 40); return true;
@@ -200,7 +441,7 @@ static bool apply_sabotage(int q, World& w)
     case 6: if (!w.neigh || !w.dbin || w.neigh->getType() == ENeigh::IMAGE) return false; delete w.neigh; w.neigh = NeighImage::create({1, 1}); return true;
     case 7: if (!w.dbout || w.dbout->isGrid() || w.dbout == w.dbin) return false; w.dbout->deleteSamples({0, 1, 2}); return true;
     case 8: if (!w.dbin || w.dbin->isGrid() || w.dbout == w.dbin) return false; w.dbin->deleteSamples({0, 1, 2, 3, 4, 5}); return true;
-    case 9: if (!w.dbin) return false; for (int e = 0; e < w.dbin->getSampleNumber(); e++) w.dbin->setLocVariable(ELoc::Z, e, 0, TEST); return true;
+    case 9: { Db* d = w.dbin ? w.dbin : w.dbout; if (!d || d->getLocatorNumber(ELoc::Z) == 0) return false; for (int e = 0; e < d->getSampleNumber(); e++) d->setLocVariable(ELoc::Z, e, 0, TEST); return true; }
   }
   return false;
 }
@@ -250,7 +491,7 @@ static std::string snapdiff(const std::string& a, const std::string& b)
 
 struct Report { std::vector<std::pair<std::string, std::string>> viol; std::vector<std::string> outcomes; bool exercised = false; };
 
-static void destroy(World& w) { if (w.dbout != w.dbin) delete w.dbout; delete w.dbin; delete w.model; delete w.neigh; w = World(); }
+static void destroy(World& w) { delete w.produced; if (w.dbout != w.dbin) delete w.dbout; delete w.dbin; delete w.model; delete w.neigh; w = World(); }
 
 // one complete case, run inside the child. fail = index of the hook call to fail (0 none), sab = sabotage (-1 none)
 static void run_case(const Scenario& s, int prior, int fail, int sab, Report& R)
@@ -258,7 +499,7 @@ static void run_case(const Scenario& s, int prior, int fail, int sab, Report& R)
   gstlearn_verif_fault = verif_hook;
   World w;
   s.build(w);
-  apply_prior(prior, w, s);
+  if (!apply_prior(prior, w, s)) { R.outcomes.push_back("prior-not-applicable"); return; }
   if (sab >= 0 && !apply_sabotage(sab, w)) { R.outcomes.push_back("sabotage-not-applicable"); return; }
   bool same = w.dbin == w.dbout;
   std::string bin = snap(w.dbin), bout = snap(w.dbout);
@@ -291,6 +532,7 @@ static void run_case(const Scenario& s, int prior, int fail, int sab, Report& R)
       g_calls = 0; g_points.clear();
       int r2 = s.call(w);
       World f; s.build(f); apply_prior(prior, f, s);
+      if (w.produced) { delete w.produced; w.produced = nullptr; }
       g_calls = 0; g_points.clear();
       int r3 = s.call(f);
       if (r2 != r3 || snap_nouid(w.dbout) != snap_nouid(f.dbout) || snap_nouid(w.dbin) != snap_nouid(f.dbin))
@@ -319,10 +561,33 @@ static void run_case(const Scenario& s, int prior, int fail, int sab, Report& R)
       if (!found) R.viol.push_back({"success-deletes-old-column:" + s.calc, ctx + " : pre-existing column '" + o.name + "' of dbout disappeared"});
     }
     int added = (int)c1.size() - kept;
-    if (sab < 0 && ret != NOSTATUS && added != s.expectedNew)
+    auto itE = expected_names().find(s.calc);
+    if (sab < 0 && itE != expected_names().end())
+    {
+      // exactly the documented output variables, with the documented names, and nothing else
+      std::vector<std::string> got;
+      for (auto& n : c1) { bool old = false; for (auto& o : cout0) if (o.uid == n.uid) old = true; if (!old) got.push_back(n.name); }
+      std::vector<std::string> want = itE->second;
+      std::vector<char> used(got.size(), 0);
+      bool ok = got.size() == want.size();
+      for (auto& e : want)
+      {
+        bool f = false;
+        for (size_t k = 0; k < got.size() && !f; k++)
+          if (!used[k] && (got[k] == e || (prior == 1 && is_dedup_of(got[k], e)))) { used[k] = 1; f = true; }
+        if (!f) ok = false;
+      }
+      if (!ok)
+      {
+        std::string g, x;
+        for (auto& n : got) g += " '" + n + "'";
+        for (auto& n : want) x += " '" + n + "'";
+        std::string key = ret == NOSTATUS ? "rollback:" + s.calc + ":temporaries-after-success" : "success-output-names:" + s.calc;
+        R.viol.push_back({key, ctx + " : variables added to dbout:" + (g.empty() ? " (none)" : g) + " ; documented:" + (x.empty() ? " (none)" : x)});
+      }
+    }
+    else if (sab < 0 && ret != NOSTATUS && added != s.expectedNew && s.expectedNew >= 0)
       R.viol.push_back({"success-output-count:" + s.calc, ctx + " : " + std::to_string(added) + " variables were added to dbout, the documented number is " + std::to_string(s.expectedNew)});
-    if (ret == NOSTATUS && added != 0)
-      R.viol.push_back({"rollback:" + s.calc + ":temporaries-after-success", ctx + " : " + std::to_string(added) + " variables were left in dbout by a call that documents no output variable"});
     if (sab >= 0 && ret == 0 && must_fail(sab, s.calc))
       R.viol.push_back({"reports-success:" + s.calc + ":" + label, ctx + " : the library states that it cannot perform this calculation, yet the call returns the success status"});
     R.outcomes.push_back(sab >= 0 ? "sabotaged-but-succeeded" : "succeeded");
@@ -371,7 +636,7 @@ static void run_forked(Ctx& C, uint64_t id, const Scenario& s, int prior, int fa
   if (id % 97 == 3) C.sample("{\"id\":" + kase + ",\"case\":" + jstr(ctx) + ",\"child_output\":" + jstr(cr.data.substr(0, 300)) + "}");
 }
 
-static const int KMAX = 10;
+static const int KMAX = 12;
 
 VF_PART(inject)
 {
@@ -389,5 +654,29 @@ VF_PART(natural)
 
 int main(int argc, char** argv)
 {
-  return run_main(argc, argv, [](Ctx&) { silence(); build_scenarios(); });
+  if (getenv("C19_PROBE"))
+  {
+    // development aid: baseline of every scenario, library messages visible, prints status and the names added to dbout
+    build_scenarios(); build_scenarios2();
+    for (auto& s : SC)
+    {
+      if (argc > 1 && s.calc.find(argv[1]) == std::string::npos) continue;
+      ChildResult cr = run_child([&](int wfd) {
+        gstlearn_verif_fault = verif_hook;
+        World w; s.build(w);
+        std::set<int> old; if (w.dbout) for (int i = 0; i < w.dbout->getColumnNumber(); i++) old.insert(w.dbout->getUIDByColIdx(i));
+        std::string bin = w.dbin && w.dbin != w.dbout ? db_snapshot(w.dbin) : "";
+        g_calls = 0; g_points.clear();
+        int r = s.call(w);
+        std::string o = s.calc + " ret=" + std::to_string(r) + " hookcalls=" + std::to_string(g_calls) + " new={";
+        if (w.dbout) for (int i = 0; i < w.dbout->getColumnNumber(); i++) if (!old.count(w.dbout->getUIDByColIdx(i))) { ELoc lt; int li; o += "\"" + w.dbout->getNameByColIdx(i) + "\""; if (w.dbout->getLocatorByColIdx(i, &lt, &li)) o += "[" + std::string(lt.getKey()) + std::to_string(li) + "]"; o += ","; }
+        o += "} dbin " + std::string(bin == (w.dbin && w.dbin != w.dbout ? db_snapshot(w.dbin) : "") ? "same" : "CHANGED") + "\n";
+        child_write(wfd, o);
+        return 0;
+      }, 30., 0, true);
+      printf("%s%s", cr.data.c_str(), cr.clean() && cr.code == 0 ? "" : (s.calc + " CHILD " + cr.describe() + "\n").c_str());
+    }
+    return 0;
+  }
+  return run_main(argc, argv, [](Ctx&) { silence(); build_scenarios(); build_scenarios2(); });
 }
